@@ -701,7 +701,11 @@ func (gen *Generator) GenerateCallBySymbol(sym *SexpSymbol, args []Sexp, orig Se
 			gen.AddInstruction(RemoveScopeInstr{})
 		}
 		gen.AddInstruction(PrepareCallInstr{sym, len(args)})
-		gen.AddInstruction(GotoInstr{1}) // goto 1 instead of 0 to avoid adding a new scope
+		// every activation gets its own function scope, as a real call
+		// would give it: closures made by an earlier iteration keep
+		// their own parameters instead of seeing the last iteration's.
+		gen.AddInstruction(RemoveScopeInstr{})
+		gen.AddInstruction(GotoInstr{0})
 	} else {
 		gen.AddInstruction(CallExprInstr{callee: sym, args: append([]Sexp(nil), args...)})
 	}
